@@ -84,8 +84,10 @@ class CallTrigger:
         methods were not enabled. In case we only want to focus on the cycles when one of the calls succeeded,
         `until_done` can be used. This works like `until()` in `TickTrigger`.
         """
+        # sampled values are never `None`: only the calls (and sampled method results) count
+        calls = [i for i, v in enumerate(self.calls_and_values) if isinstance(v, tuple)]
         async for results in self:
-            if any(res is not None for res in results):
+            if any(results[i] is not None for i in calls):
                 return results
 
     async def until_all_done(self) -> Any:
